@@ -1,7 +1,7 @@
 import AioslskVerif.Generated.RateConstants
 /-!
 Model of the file-transfer data plane (C04), transcribed from the FIXED code
-(fixes/C04-zero-remaining.patch, fixes/C04-offset-send-failure.patch):
+(fixes/C04-zero-remaining.patch, fixes/C04-offset-send-failure.patch, fixes/C04-upload-eof-wait-read-error.patch):
 
 * `PeerConnection.receive_file` / `send_file` / `receive_until_eof` (network/connection.py:414-433, 699-755)
 * `TransferManager._initialize_download` from "calculate and send the offset" on, `_download_file`,
@@ -207,7 +207,8 @@ structure Ul where
   sent : Bytes        -- ghost: bytes written to the socket in this attempt
   chunk : Nat
   st : UState
-  peerClosed : Bool   -- ghost: `receive_until_eof` returned (EOF, or a read error treated alike)
+  peerClosed : Bool   -- ghost: `receive_until_eof` returned: the peer closed the connection in an orderly way
+  puf : Nat := 0      -- ghost: `PeerUploadFailed` messages sent to the downloader so far
 deriving Repr
 
 def Ul.init (F : Bytes) : Ul :=
@@ -218,7 +219,8 @@ inductive UOp
   | begin (offset : Nat) (limited : Bool)   -- offset received: `bytes_transfered = offset`, UPLOADING, seek
   | chunk                                   -- one iteration of the `send_file` loop, write succeeded
   | werr                                    -- `send_data` raised ConnectionWriteError
-  | closed                                  -- the peer closed / the connection broke
+  | closed                                  -- the peer closed the connection (EOF)
+  | rerr                                    -- the connection broke / timed out (read error)
 deriving Repr
 
 /-- `_initialize_upload` from the received offset on: `bytes_transfered = offset`, UPLOADING, `seek(offset)`. -/
@@ -235,11 +237,15 @@ def ustep (F : Bytes) (u : Ul) : UOp → Ul
       if data = [] then { u with st := .awaitEof }      -- `if not data: return`, then `receive_until_eof`
       else { u with sent := u.sent ++ data, pos := u.pos + data.length, bt := u.bt + data.length }
     else u
-  | .werr => if u.st = .sending then { u with st := .failed } else u
+  | .werr => if u.st = .sending then { u with st := .failed, puf := u.puf + 1 } else u
   | .closed =>
     if u.st = .awaitEof then
       { u with peerClosed := true, st := if u.filesize = u.bt then .complete else .failed }
     else u     -- while sending nobody reads: a closed peer shows up as a write error
+  | .rerr =>
+    -- FIXED `_upload_file` (fixes/C04-upload-eof-wait-read-error.patch): a connection that breaks while the
+    -- uploader waits for the downloader's close is a failure like a write error: FAILED, PeerUploadFailed
+    if u.st = .awaitEof then { u with st := .failed, puf := u.puf + 1 } else u
 
 def urun (F : Bytes) (u : Ul) (ops : List UOp) : Ul := ops.foldl (ustep F) u
 
